@@ -50,7 +50,8 @@ import (
 //	vh <name> <set>        verifyHeader against an explicit validator set (no state change)
 //
 // Test contract programs (bytes): 01 k d  counter k += d;  02 k  delete counter k;  03 b  cross-chain
-// leaf [b];  04  fail (transaction reverts);  05 b  notification b.
+// leaf [b];  04  fail (transaction reverts);  05 b  notification b;  06 n_hi n_lo d  counters 0..n-1 of a wide range
+// (three-byte key suffix) += d, each a read-modify-write.
 // ---------------------------------------------------------------------------------------------
 
 const poolSize = 14
@@ -96,6 +97,13 @@ func setup() {
 
 func counterKey(k byte) []byte { return append(append([]byte{}, testAddr[:]...), k) }
 
+// rangeKey: counters of the wide range (instruction 06)
+func rangeKey(j int) []byte {
+	return append(append([]byte{}, testAddr[:]...), 0xff, byte(j>>8), byte(j))
+}
+
+const rangeObserved = 2000
+
 func runProgram(s *native.NativeService) ([]byte, error) {
 	p := s.GetInput()
 	db := s.GetCacheDB()
@@ -130,6 +138,28 @@ func runProgram(s *native.NativeService) ([]byte, error) {
 			}
 			s.PutMerkleVal([]byte{p[i+1]})
 			i += 2
+		case 6:
+			// 06 n_hi n_lo d: counters 0..n-1 of the wide range (key suffix ff,i_hi,i_lo) += d, each read-modify-write
+			if i+3 >= len(p) {
+				return nil, errors.New("short program")
+			}
+			n := int(p[i+1])<<8 | int(p[i+2])
+			for j := 0; j < n; j++ {
+				key := rangeKey(j)
+				cur, err := db.Get(key)
+				if err != nil {
+					return nil, err
+				}
+				var v uint64
+				if len(cur) == 8 {
+					v = binary.LittleEndian.Uint64(cur)
+				}
+				v += uint64(p[i+3])
+				nv := make([]byte, 8)
+				binary.LittleEndian.PutUint64(nv, v)
+				db.Put(key, nv)
+			}
+			i += 4
 		case 4:
 			return nil, errors.New("scripted failure")
 		case 5:
@@ -472,6 +502,7 @@ type obsT struct {
 	stMem, stStored          uint32
 	stRootMem, stRootStored  common.Uint256
 	cnt                      string
+	rng                      string
 	xr                       string
 	nev                      string
 	peersH, peersB           string
@@ -523,6 +554,21 @@ func (l *ledgerInst) observe() obsT {
 	if o.cnt == "" {
 		o.cnt = "-"
 	}
+	// the wide counter range (only when it has been used): digest over every fifth of the first rangeObserved counters
+	// (the state root covers all of them)
+	o.rng = "-"
+	if v0, _ := st.VerifStorageRaw(append([]byte{0x05}, rangeKey(0)...)); len(v0) != 0 {
+		hr := sha256.New()
+		for j := 0; j < rangeObserved; j += 5 {
+			v, err := st.VerifStorageRaw(append([]byte{0x05}, rangeKey(j)...))
+			if err != nil {
+				o.err += "storage;"
+			}
+			hr.Write([]byte{byte(len(v))})
+			hr.Write(v)
+		}
+		o.rng = fmt.Sprintf("%x", hr.Sum(nil)[:8])
+	}
 	// cross-state root of every block up to the block height, folded into one digest
 	h := sha256.New()
 	for i := uint32(0); i <= o.bh; i++ {
@@ -558,9 +604,9 @@ func (o obsT) String() string {
 	if e == "" {
 		e = "-"
 	}
-	return fmt.Sprintf("bh=%d tip=%s sh=%d stip=%s eh=%d hh=%d bt=%d/%d:%s st=%d/%d:%s:%s cnt=%s xr=%s nev=%s peers=%s|%s cache=%d fl=%d e=%s",
+	return fmt.Sprintf("bh=%d tip=%s sh=%d stip=%s eh=%d hh=%d bt=%d/%d:%s st=%d/%d:%s:%s cnt=%s rng=%s xr=%s nev=%s peers=%s|%s cache=%d fl=%d e=%s",
 		o.bh, short(o.tip), o.sh, short(o.stip), o.eh, o.hh, o.btMem, o.btStored, short(o.btRoot), o.stMem, o.stStored,
-		short(o.stRootMem), short(o.stRootStored), o.cnt, o.xr, o.nev, o.peersH, o.peersB, o.cache, o.fl, e)
+		short(o.stRootMem), short(o.stRootStored), o.cnt, o.rng, o.xr, o.nev, o.peersH, o.peersB, o.cache, o.fl, e)
 }
 
 // durable is the part of an observation that the property C12 speaks about (no in-memory sync caches).
@@ -568,9 +614,9 @@ func (o obsT) durable() string {
 	if strings.HasPrefix(o.err, "closed") {
 		return o.err
 	}
-	return fmt.Sprintf("bh=%d tip=%s sh=%d stip=%s eh=%d bt=%d/%d:%s st=%d/%d:%s:%s cnt=%s xr=%s nev=%s e=%s",
+	return fmt.Sprintf("bh=%d tip=%s sh=%d stip=%s eh=%d bt=%d/%d:%s st=%d/%d:%s:%s cnt=%s rng=%s xr=%s nev=%s e=%s",
 		o.bh, short(o.tip), o.sh, short(o.stip), o.eh, o.btMem, o.btStored, short(o.btRoot), o.stMem, o.stStored,
-		short(o.stRootMem), short(o.stRootStored), o.cnt, o.xr, o.nev, o.err)
+		short(o.stRootMem), short(o.stRootStored), o.cnt, o.rng, o.xr, o.nev, o.err)
 }
 
 func diffFields(a, b string) string {
